@@ -381,7 +381,7 @@ impl Engine for StackEngine {
         }
     }
     fn rule(&self, _p: &str) -> String {
-        "configuration = 1-3 top-level groups over the Registry built from {recording leaf, global filter layer, per-layer-filtered subtree, Vec, Some/None, Box, and_then} with filters from {level, Targets table, EnvFilter directives, static closure, context closure, and/or/not}; history = spans (create/enter/exit/record/drop), events, enabled! probes and emissions aborted by a panicking field expression, on one thread or with two different stacks on two threads; non-trivial = some leaf received an emission that another leaf of the same stack did not, and at least one span was hidden from some leaf while entered; distinct = distinct plan digest".into()
+        "configuration = 1-3 top-level groups over the Registry built from {recording leaf, global filter layer, per-layer-filtered subtree, Vec, Some/None, Box, and_then, a plain layer that vetoes marked events through event_enabled} with filters from {level, Targets table, EnvFilter directives, static closure, context closure, and/or/not}; history = spans (create/enter/exit/record/drop; a quarter of the runs start with a chain 3-4 deep), events (contextual, explicit parent, vetoed), enabled! probes and emissions aborted by a panicking field expression, on one thread or with two different stacks on two threads; non-trivial = some leaf received an emission that another leaf of the same stack did not, and at least one span was hidden from some leaf while entered; distinct = distinct plan digest".into()
     }
     fn components(&self) -> Value {
         json!({"real": ["Registry", "Layered (as Collect and as Subscribe)", "Filtered + FilterState/FILTERING", "combinators And/Or/Not", "Targets", "EnvFilter", "FilterFn/DynFilterFn", "Vec/Option/Box impls", "tracing macros + interest cache"],
